@@ -400,3 +400,34 @@ PROPS['C17'] = dict(
     level_note='Trusted: GMP, ref.h, the harness Gauss-Legendre nodes (long double Newton), boost::math::quadrature::gauss as shipped.',
     assumptions=[EXACT, SAN],
 )
+
+def _c19_units():
+    a = lambda *x: ['--property', 'C19'] + list(x)
+    us = [dict(target=T('h_archetype', deps=['harness/common/qsolver.h']), quick=dict(args=a(), scale=1.0), thorough=dict(args=a(), scale=6.0, shards=4)),
+          dict(target=T('h_gen', parts=4), quick=dict(args=a('--prefix', 'exact'), scale=0.25), thorough=dict(args=a('--prefix', 'exact'), scale=1.0, shards=4)),
+          dict(target=T('h_arith', parts=3), quick=dict(args=a(), scale=0.2), thorough=dict(args=a(), scale=1.0, shards=4)),
+          dict(target=T('h_prim', parts=4), quick=dict(args=a(), scale=0.25), thorough=dict(args=a(), scale=1.0, shards=4)),
+          dict(target=T('h_interp', parts=3), quick=dict(args=a('--prefix', 'exact-solver'), scale=0.3), thorough=dict(args=a('--prefix', 'exact-solver'), scale=1.0, shards=4))]
+    for k in (0, 1, 2):
+        t = T('cat_%02d' % k, src=['harness/expr_catalog/cat_%02d.cpp' % k], deps=['harness/expr_common.h'])
+        us.append(dict(target=t, quick=dict(args=a(), scale=0.3), thorough=dict(args=a(), scale=2.0)))
+    def boost(u, tier, res, env):
+        if tier != 'thorough':
+            return
+        _sys.modules['__main__'].run_unit(dict(target=T('h_archetype_boost'), thorough=dict(args=a(), scale=3.0, shards=4)), tier, res, 'C19-boost')
+    us.append(dict(custom=boost, prebuild_thorough=[T('h_archetype_boost')], prebuild_quick=[]))
+    return us
+PROPS['C19'] = dict(
+    units=_c19_units(),
+    build_failure_is_violation=True,
+    rule=('configuration x inputs. (1) Compile check: h_archetype.cpp explicitly instantiates every class template of the library (Grid, Support, Spline<0..4>, BSplineGenerator, SplineOperator, ScalarMultiplication, OperatorProduct, OperatorSum, LinearForm, BilinearForm, Boundary, ISolver) with the archetype scalar Q - only default/copy construction, explicit construction from int, + - * / and compound forms, unary minus, six comparisons; '
+          'no implicit conversion, no <cmath>, no numeric_limits, no streaming - and calls every member template and free function template incl. interpolate<Q,order,user solver>; every other exact harness (C01-C08, C10-C15) compiles the library with the same type. A compile failure is the violation (replay = compiler log). '
+          '(2) Exactness: an API sweep over generated inputs (600 cases x ~45 operations) plus reduced runs of the exact sub-checks of C01, C03, C04, C05/C06/C07 (24 catalogue programs) and C12: all results exact. Thorough adds boost::multiprecision::cpp_rational (exact agreement) and cpp_bin_float_quad (1e-24). '
+          'Non-trivial: operand with >= 1 interval (sweep); the rules of the reused sub-checks otherwise.'),
+    technique='archetype-type instantiation (compile check over all templates) + rapidcheck generation with exact comparison against the reference model',
+    engine='clang++ + rapidcheck',
+    level='exploration',
+    level_text='The quantifier "all scalar types satisfying the requirements" is attacked with a minimal archetype: whatever compiles and is exact for Q uses only the documented operations. Template space = every class template and every function template of Core.h and interpolation.h, at the orders instantiated. Generated-input search for exactness. Not a proof over all types.',
+    level_note='A type with only explicit construction from int cannot detect static_cast<T>(0.5)-style truncation at compile time; that is caught by the exactness runs. Orders > 6 and operator nestings outside the catalogue are not instantiated.',
+    assumptions=[EXACT, SAN],
+)
